@@ -120,18 +120,33 @@ def mu_boundary_corr(rep, rng, dev, tier, numpy_scalars=False):
     from tdgl.solver.solver import TDGLSolver
     from .common import flit, coq_list
     names_all = [t.name for t in dev.terminals]
-    base = [rng.choice([1.0, 2.5, 0.3]) for _ in names_all[:-1]]
-    base.append(-sum(base))
-    nseq = 12 if tier == "quick" else 60
+    nt = len(names_all)
+    nseq = 16 if tier == "quick" else 80
+    # per-terminal scripts: at every call a random subset of terminals keeps its current (some at zero) while the
+    # others change; the assignment stays balanced (the terminals that change absorb the difference)
     script = []
+    prev = [0.0] * nt
     for k in range(nseq):
         r = rng.random()
-        s = 0.0 if r < 0.25 else (script[-1] if (r < 0.45 and script) else rng.choice([1.0, 0.5, -2.0, 1e-3]))
-        script.append(s)
+        if r < 0.15 and script:
+            vec = list(prev)                                   # nothing changes
+        elif r < 0.3:
+            vec = [0.0] * nt                                   # everything off
+        else:
+            keep = [rng.random() < 0.4 for _ in range(nt)]
+            movers = [j for j in range(nt) if not keep[j]]
+            if len(movers) < 2:
+                movers = rng.sample(range(nt), 2)
+            vec = list(prev)
+            for j in movers[:-1]:
+                vec[j] = rng.choice([1.0, 2.5, 0.3, -0.7, 0.0, 1e-3])
+            vec[movers[-1]] = -(sum(vec) - vec[movers[-1]])
+        script.append(vec)
+        prev = vec
 
     def cur(t):
         k = min(int(round(t)), nseq - 1)
-        return {nm: (np.float64(script[k] * b) if numpy_scalars else script[k] * b) for nm, b in zip(names_all, base)}
+        return {nm: (np.float64(v) if numpy_scalars else v) for nm, v in zip(names_all, script[k])}
 
     opts = runs.make_options(None, solve_time=1.0)
     solver = TDGLSolver(dev, opts, terminal_currents=cur)
@@ -139,6 +154,7 @@ def mu_boundary_corr(rep, rng, dev, tier, numpy_scalars=False):
     order = solver.terminal_names
     snaps = []
     Ilits = []
+    oracle_bad = []
     kinds = {type(v) for v in solver.current_func(0.0).values()}
     if kinds == {float}:
         comp = "true"        # CPython >= 3.12: builtin sum over exact floats is Neumaier-compensated
@@ -152,6 +168,18 @@ def mu_boundary_corr(rep, rng, dev, tier, numpy_scalars=False):
         solver.update_mu_boundary(float(k))
         snaps.append(np.array(solver.mu_boundary, copy=True))
         scaled = solver.current_func(float(k))
+        # oracle (cache_coherent): after ANY call sequence every terminal edge carries the from-scratch density of the
+        # latest currents (= I_t / L_t for a balanced assignment), every other boundary edge 0
+        want_mb = np.zeros(len(solver.mu_boundary))
+        scale_ = max(abs(float(v)) for v in scaled.values()) + 1e-300
+        for ti in info:
+            want_mb[ti.boundary_edge_indices] = float(scaled[ti.name]) / ti.length
+        if np.max(np.abs(snaps[-1] - want_mb)) > 1e-12 * scale_ / min(ti.length for ti in info) and not oracle_bad:
+            oracle_bad.append(k)
+            rep.violation("after a sequence of update_mu_boundary calls a terminal's boundary edges do not carry the requested "
+                          "current density of the latest currents (stale change-only cache)",
+                          {"call": k, "currents_last_calls": script[max(0, k - 2):k + 1],
+                           "max_abs_diff": float(np.max(np.abs(snaps[-1] - want_mb)))})
         Ilits.append(coq_list([flit(scaled[nm]) for nm in order]))
     nb = len(solver.mu_boundary)
     terms = coq_list([f"Build_terminal OpsF {flit(t.length)} {coq_list([str(int(b)) + '%nat' for b in t.boundary_edge_indices], per_line=20)}"
@@ -173,7 +201,7 @@ def mu_boundary_corr(rep, rng, dev, tier, numpy_scalars=False):
         if not np.array_equal(np.array(m, dtype=float), s):
             bad += 1
             rep.not_shown("correspondence: mu_boundary after update_mu_boundary differs from Model.Step.update_mu_boundary",
-                          {"call": k, "script": script[:k + 1], "max_abs_diff": float(np.max(np.abs(np.array(m, dtype=float) - s)))})
+                          {"call": k, "script": script[max(0, k - 2):k + 1], "max_abs_diff": float(np.max(np.abs(np.array(m, dtype=float) - s)))})
             break
     rep.count(nseq)
     rep.coverage["mu_boundary_calls_compared"] = rep.coverage.get("mu_boundary_calls_compared", 0) + nseq
